@@ -50,6 +50,17 @@ func randGen(rng *rand.Rand, profile string) GenSpec {
 	g.Bcn.Max = g.Bcn.Def + uint64(rng.Intn(4))
 	vf := [][2]int64{{0, 1}, {1, 100}, {1, 2}, {1, 1}, {1, 4}}[rng.Intn(5)]
 	g.Str.FeeNum, g.Str.FeeDen = vf[0], vf[1]
+	// starting ids: not dense from 1; across a byte boundary of the id's big-endian key
+	g.Ent.StartID = uint64(1 + 3*rng.Intn(2))
+	g.Bcn.StartID = []uint64{1, 1, 255}[rng.Intn(3)]
+	if rng.Intn(4) == 0 {
+		g.Wrk.StartID = 255
+	}
+	if rng.Intn(4) == 0 {
+		// the production storage limits (DefaultParams): "limit = default" is then also "limit = the code's constant"
+		g.Wrk.Def, g.Wrk.Max = 50000, 600000
+		g.Bcn.Def, g.Bcn.Max = 50000, 600000
+	}
 	if (profile == "ent" || profile == "mix") && rng.Intn(2) == 0 {
 		// a purchaser whose funds are still vesting (delayed vesting, nothing vested inside a scenario)
 		who := []string{"A3", "A4"}[rng.Intn(2)]
@@ -103,6 +114,47 @@ func (d *Driver) w() *World { return d.R.W }
 
 func (d *Driver) anyAcct() string { return d.pick(d.w().Names) }
 
+// anyParty: a scenario account or, now and then, the group policy account (it acts through group proposals only)
+func (d *Driver) anyParty() string {
+	if d.chance(0.12) {
+		return "grp"
+	}
+	return d.anyAcct()
+}
+
+// parties: the scenario accounts and the group policy account
+func (d *Driver) parties() []string { return append(append([]string{}, d.w().Names...), "grp") }
+
+// groupWrap puts every message the group policy account has to sign into a group proposal submitted (and executed
+// at once) by a member - now and then by a stranger; neighbouring ones sometimes share one proposal.
+func (d *Driver) groupWrap(msgs []interface{}) []interface{} {
+	var out []interface{}
+	for i := 0; i < len(msgs); {
+		m := msgs[i].(M)
+		if mStr(m, SignerField(m)) != "grp" || mStr(m, "t") == "GExec" {
+			out = append(out, m)
+			i++
+			continue
+		}
+		run := []interface{}{m}
+		i++
+		for i < len(msgs) && d.chance(0.5) {
+			n := msgs[i].(M)
+			if mStr(n, SignerField(n)) != "grp" {
+				break
+			}
+			run = append(run, n)
+			i++
+		}
+		member := d.pick([]string{"A1", "A2"})
+		if d.chance(0.1) {
+			member = d.anyAcct()
+		}
+		out = append(out, M{"t": "GExec", "member": member, "msgs": run})
+	}
+	return out
+}
+
 func (d *Driver) curSigners() []string {
 	p := d.w().App.EnterpriseKeeper.GetParams(d.w().Ctx())
 	var out []string
@@ -124,11 +176,11 @@ func (d *Driver) entMsg() M {
 	k := w.App.EnterpriseKeeper
 	switch d.rint(0, 9) {
 	case 0, 1, 2:
-		pur := d.anyAcct()
+		pur := d.anyParty()
 		if d.chance(0.75) {
 			var wl []string
-			for _, n := range w.Names {
-				if k.AddressIsWhitelisted(ctx, w.Accts[n].Addr) {
+			for _, n := range d.parties() {
+				if k.AddressIsWhitelisted(ctx, w.partyAddr(n)) {
 					wl = append(wl, n)
 				}
 			}
@@ -166,7 +218,7 @@ func (d *Driver) entMsg() M {
 		if d.chance(0.4) {
 			act = "remove"
 		}
-		return M{"t": "Whitelist", "signer": signer, "addr": d.anyAcct(), "act": act}
+		return M{"t": "Whitelist", "signer": signer, "addr": d.anyParty(), "act": act}
 	}
 }
 
@@ -228,7 +280,7 @@ func (d *Driver) regMsg() (M, int64) {
 		have := next > start
 		c := d.rint(0, 9)
 		if !have || c == 0 {
-			return M{"t": "WReg", "owner": d.anyAcct(), "moniker": d.pick([]string{"m1", "m2", "LEN:64", "LEN:65"}), "name": d.pick([]string{"n", "", "LEN:128"}),
+			return M{"t": "WReg", "owner": d.anyParty(), "moniker": d.pick([]string{"m1", "m2", "LEN:64", "LEN:65"}), "name": d.pick([]string{"n", "", "LEN:128"}),
 				"genesis": d.pick([]string{"g", "LEN:66", ""}), "type": "geth"}, int64(p.FeeRegister)
 		}
 		id := start + uint64(d.Rng.Intn(int(next-start)))
@@ -237,8 +289,8 @@ func (d *Driver) regMsg() (M, int64) {
 		}
 		wc, _ := k.GetWrkChain(ctx, id)
 		owner := w.nameOf(wc.Owner)
-		if d.chance(0.15) || !contains(w.Names, owner) {
-			owner = d.anyAcct()
+		if d.chance(0.15) || !contains(d.parties(), owner) {
+			owner = d.anyParty()
 		}
 		if c <= 6 {
 			h := int64(wc.Lastblock) + int64(d.rint(1, 3))
@@ -260,7 +312,7 @@ func (d *Driver) regMsg() (M, int64) {
 	have := next > start
 	c := d.rint(0, 9)
 	if !have || c == 0 {
-		return M{"t": "BReg", "owner": d.anyAcct(), "moniker": d.pick([]string{"b1", "b2", "LEN:64"}), "name": d.pick([]string{"n", "LEN:128", "LEN:129"})}, int64(p.FeeRegister)
+		return M{"t": "BReg", "owner": d.anyParty(), "moniker": d.pick([]string{"b1", "b2", "LEN:64"}), "name": d.pick([]string{"n", "LEN:128", "LEN:129"})}, int64(p.FeeRegister)
 	}
 	id := start + uint64(d.Rng.Intn(int(next-start)))
 	if d.chance(0.05) {
@@ -268,8 +320,8 @@ func (d *Driver) regMsg() (M, int64) {
 	}
 	bc, _ := k.GetBeacon(ctx, id)
 	owner := w.nameOf(bc.Owner)
-	if d.chance(0.15) || !contains(w.Names, owner) {
-		owner = d.anyAcct()
+	if d.chance(0.15) || !contains(d.parties(), owner) {
+		owner = d.anyParty()
 	}
 	if c <= 6 {
 		return M{"t": "BRec", "owner": owner, "id": int64(id), "hash": d.hash(), "subt": int64(d.rint(1, 100000))}, int64(p.FeeRecord)
@@ -310,7 +362,7 @@ func (d *Driver) bulkBuyTx() M {
 		return d.regTx()
 	}
 	d.Rng.Shuffle(len(msgs), func(i, j int) { msgs[i], msgs[j] = msgs[j], msgs[i] })
-	return M{"a": "DeliverTx", "msgs": msgs, "fee": M{"nund": total}}
+	return M{"a": "DeliverTx", "msgs": d.groupWrap(msgs), "fee": M{"nund": total}}
 }
 
 func (d *Driver) regTx() M {
@@ -349,7 +401,7 @@ func (d *Driver) regTx() M {
 	case 3:
 		fee = M{"nund": total, "other": int64(1)}
 	}
-	ev := M{"a": "DeliverTx", "msgs": msgs, "fee": fee}
+	ev := M{"a": "DeliverTx", "msgs": d.groupWrap(msgs), "fee": fee}
 	if d.chance(0.04) {
 		ev["badSig"] = true
 	}
@@ -364,16 +416,16 @@ func (d *Driver) streamMsg() M {
 	ctx := w.Ctx()
 	type pair struct{ r, s string }
 	var live []pair
-	for _, r := range w.Names {
-		for _, s := range w.Names {
-			if r != s && w.App.StreamKeeper.IsStream(ctx, w.Accts[r].Addr, w.Accts[s].Addr) {
+	for _, r := range d.parties() {
+		for _, s := range d.parties() {
+			if r != s && w.App.StreamKeeper.IsStream(ctx, w.partyAddr(r), w.partyAddr(s)) {
 				live = append(live, pair{r, s})
 			}
 		}
 	}
 	c := d.rint(0, 9)
 	if len(live) == 0 || c <= 1 {
-		s, r := d.anyAcct(), d.anyAcct()
+		s, r := d.anyParty(), d.anyParty()
 		if d.chance(0.03) {
 			r = "stream"
 		}
@@ -385,7 +437,7 @@ func (d *Driver) streamMsg() M {
 	if d.chance(0.1) {
 		p.r, p.s = p.s, p.r // wrong direction / stranger
 	}
-	st, _ := w.App.StreamKeeper.GetStream(ctx, w.Accts[p.r].Addr, w.Accts[p.s].Addr)
+	st, _ := w.App.StreamKeeper.GetStream(ctx, w.partyAddr(p.r), w.partyAddr(p.s))
 	den := st.Deposit.Denom
 	if den == "" || d.chance(0.05) {
 		den = d.pick([]string{"nund", "other"})
@@ -404,9 +456,9 @@ func (d *Driver) streamMsg() M {
 func (d *Driver) sendMsg() M {
 	to := d.anyAcct()
 	if d.chance(0.4) {
-		to = d.pick([]string{"ent", "stream", "feecol"})
+		to = d.pick([]string{"ent", "stream", "feecol", "grp", "grp"})
 	}
-	return M{"t": "Send", "from": d.anyAcct(), "to": to, "amt": int64(d.rint(1, 50)), "denom": d.pick([]string{"nund", "other"})}
+	return M{"t": "Send", "from": d.anyParty(), "to": to, "amt": int64(d.rint(1, 50)), "denom": d.pick([]string{"nund", "other"})}
 }
 
 func (d *Driver) wrapTx(msgs ...M) M {
@@ -414,6 +466,13 @@ func (d *Driver) wrapTx(msgs ...M) M {
 	for _, m := range msgs {
 		ms = append(ms, m)
 	}
+	// now and then every address of a message in the all upper-case spelling bech32 also admits (the same accounts)
+	for _, x := range ms {
+		if m := x.(M); d.chance(0.04) && mStr(m, "t") != "GExec" && mStr(m, "t") != "Exec" && mStr(m, "t") != "GovProp" {
+			m["enc"] = "upper"
+		}
+	}
+	ms = d.groupWrap(ms)
 	ev := M{"a": "DeliverTx", "msgs": ms}
 	if d.chance(0.03) {
 		ev["badSig"] = true
@@ -429,7 +488,7 @@ func (d *Driver) nextTx() M {
 	var gens []gen
 	ent := func() M {
 		m := d.entMsg()
-		if d.chance(0.1) {
+		if d.chance(0.1) && mStr(m, SignerField(m)) != "grp" {
 			// self-exec wrapper
 			return d.wrapTx(M{"t": "Exec", "grantee": mStr(m, SignerField(m)), "msgs": []interface{}{m}})
 		}
@@ -437,7 +496,7 @@ func (d *Driver) nextTx() M {
 	}
 	str := func() M {
 		m := d.streamMsg()
-		if d.chance(0.08) {
+		if d.chance(0.08) && mStr(m, SignerField(m)) != "grp" {
 			return d.wrapTx(M{"t": "Exec", "grantee": mStr(m, SignerField(m)), "msgs": []interface{}{m}})
 		}
 		if d.chance(0.1) {
@@ -480,6 +539,8 @@ func SignerField(m M) string {
 	switch mStr(m, "t") {
 	case "Raise":
 		return "pur"
+	case "GExec":
+		return "member"
 	case "Decide", "Whitelist":
 		return "signer"
 	case "WReg", "WRec", "WBuy", "BReg", "BRec", "BBuy":
@@ -528,6 +589,14 @@ func cmdRandom(profile string, seed int64, steps, runs int, out string) error {
 		rng := rand.New(rand.NewSource(seed*1000003 + int64(run)))
 		d := &Driver{R: r, Rng: rng, Profile: profile}
 		g := randGen(rng, profile)
+		if lqProb > 0 {
+			// list queries: ids that are not dense from 1 (a paginator must not compute keys from offsets), and that
+			// cross a byte boundary of their big-endian key in every other run
+			g.Ent.StartID = 4
+			if run%2 == 0 {
+				g.Wrk.StartID, g.Bcn.StartID = 255, 255
+			}
+		}
 		if err := r.Step(M{"a": "InitChain", "g": genToM(g)}); err != nil {
 			return err
 		}
